@@ -29,7 +29,9 @@ CLAIMS = {
         text='PROVED for every sample position, window length, recording length and part layout: _extract_waveform returns exactly n rows; row k is recording row s - n//2 + k (read through the reader '
              'contract of C01, deferred operators applied) restricted to the listed channels with the -1 entries zeroed when that row exists, and an all-zero row otherwise (padding on the correct side, also '
              'when the window overhangs both ends); extract_waveforms for any number of spikes: block i of the result is exactly that window for spike i (loop invariant over the rank-3 output). '
-             'BOUNDED only: iter_waveforms (chunk assignment), NpyWriter / export_waveforms (declared dtype vs bytes, unit factor), the subset-store '
+             'iter_waveforms over the proved yield monitor of the reader\'s iter_chunks (generator summary): chunks are visited in order, every yielded batch holds exactly one window per input spike whose '
+             'sample lies in the chunk (none skipped, none from elsewhere), block j being the window of batch spike j with that spike\'s channel list. '
+             'BOUNDED only: that every spike ends up in some batch and the global spike order of the export, NpyWriter / export_waveforms (declared dtype vs bytes, unit factor), the subset-store '
              'lookup and TemplateModel.get_waveforms, on real files incl. .cbin and all sample dtypes.',
         note='Assumed: rows are opaque and the channel restriction / -1 zeroing are row-wise NumPy operations (numeric meaning validated by the bounded stand-in); np.zeros / np.vstack on row blocks; reader __getitem__ per its C01 contract.',
         assumptions=['A-LIB row-wise channel selection and masked zeroing', 'A-LIB np.zeros / np.vstack of row blocks']),
